@@ -136,7 +136,7 @@ def cases(draw, max_ops=14, terminate=False, closes=False, vanish=False, allow_z
 
 
 QUERIES = ['send_bundle_get_queue', 'recv_bundle_get_queue', 'is_sess_idle', 'get_session_parameters',
-           'get_session_state', 'is_secure', 'pop_unknown', 'pop_twice', 'get_connections']
+           'get_session_state', 'is_secure', 'pop_unknown', 'pop_twice', 'get_connections', 'pop_file_bad']
 
 
 # --- executor ------------------------------------------------------------------------------
@@ -279,6 +279,22 @@ def execute(case, final_drain=True, drain_timers=False):
             elif name == 'pop_twice':
                 done = [p[0] for p in trace.popped[side]]
                 res = end.call('recv_bundle_pop_data', done[0]) if done else None
+            elif name == 'pop_file_bad':
+                # pop into a file that cannot be created: an error reply, and the bundle must still be there afterwards
+                # (the follow-up queue query is judged against "announced minus successfully popped")
+                listed = end.call('recv_bundle_get_queue')
+                res = None
+                if not isinstance(listed, tw.CallError) and list(listed):
+                    res = end.call('recv_bundle_pop_file', str(list(listed)[0]), '/nonexistent-verif-directory/bundle.bin')
+                    follow = 'recv_bundle_get_queue'
+                    fres = end.call(follow)
+                    hdl = end.hdl
+                    fmodel = dict(rx_map=sorted(str(k) for k in hdl._rx_map), tx_map=sorted(str(k) for k in hdl._tx_map),
+                                  rx_buf=hdl.recv_buffer_used(), tx_buf=hdl.send_buffer_used(),
+                                  rx_tmp=hdl._rx_tmp is not None, tx_tmp=hdl._tx_tmp is not None,
+                                  pend_start=len(hdl._tx_pend_start), pend_ack=len(hdl._tx_pend_ack),
+                                  closed=end.sock.closed, readable=len(end.sock.rx.readable))
+                    trace.queries.append((dbus.RECORDER.seq, side, follow, fres, fmodel))
             elif name == 'get_connections':
                 res = tw.dbuscall(end.ctx, end.agent, 'get_connections')
                 res = list(res) if not isinstance(res, tw.CallError) else res
